@@ -63,6 +63,50 @@ def handleOpts (toks : List String) : Option String :=
       some s!"ok cfg={showCfg p.cmd.opts.cfg} hl={p.cmd.opts.hashLen} compr={compr} temp={showHexE p.cmd.temp.toUTF8.toList} stdin={if p.stdin then 1 else 0} buf={buf} force={if p.cmd.flags.force then 1 else 0}"
     | .refused => some "refused"
     | .panic => some "panic"
+  -- opts-clone <pin> <seeds ,-separated hex|-> <retries> <delay> <timeout> <buffered> <so> <force> <vo> <archive> <kind> <output>
+  | ["opts-clone", pin, seeds, rc, rd, to, buf, so, force, vo, archive, kind, output] => do
+    let seedList ← if seeds = "-" then some [] else (seeds.splitOn ",").mapM textOf
+    let k ← match kind with
+      | "existing" => some ArchiveKind.existingPath
+      | "missing-abs" => some ArchiveKind.missingAbsolutePath
+      | "url" => some ArchiveKind.url
+      | "neither" => some ArchiveKind.neither
+      | _ => none
+    let pinBytes : Option Bytes ← if pin = "-" then some none else (textBytes pin).map some
+    let a : CloneArgs := {
+      verifyHeader := pinBytes
+      seeds := seedList
+      retryCount := ← optText rc, retryDelay := ← optText rd, timeout := ← optText to, buffered := ← optText buf
+      seedOutput := so = "1", force := force = "1", verifyOutput := vo = "1"
+      archive := ← textOf archive, archiveKind := k, output := ← textOf output }
+    match parseClone a with
+    | .ok p =>
+      let showOpt (o : Option Nat) : String := match o with
+        | none => "-"
+        | some n => toString n
+      let pinS := match p.cmd.pin with
+        | none => "none"
+        | some v => showHexE v
+      let seedsS := if p.cmd.seedPaths.isEmpty then "-" else joinWith "," (p.cmd.seedPaths.map fun s => showHexE s.toUTF8.toList)
+      some s!"ok {if p.remote then "remote" else "local"} pin={pinS} out={showHexE p.cmd.output.toUTF8.toList} seeds={seedsS} stdin={if p.seedStdin then 1 else 0} so={if p.cmd.flags.seedOutput then 1 else 0} force={if p.cmd.flags.force then 1 else 0} vo={if p.cmd.flags.verifyOutput then 1 else 0} retries={p.retries} delay={p.retryDelay} timeout={showOpt p.timeout} buf={showOpt p.buffers}"
+    | .refused => some "refused"
+    | .panic => some "panic"
+  -- opts-meta <key:value,...> (hex of the raw argument bytes)
+  | ["opts-meta", pairs] => do
+    let ps ← (pairs.splitOn ",").mapM fun kv => match kv.splitOn ":" with
+      | [k, v] => do some (← textBytes k, ← textBytes v)
+      | _ => none
+    match parseMetadataValues ps with
+    | .ok r => some s!"ok {joinWith "," (r.map fun e => showHexE e.1 ++ ":" ++ showHexE e.2)}"
+    | .refused => some "refused"
+    | .panic => some "panic"
+  -- chunker-alloc <cfg> : the largest allocation request of `Config::new_chunker`
+  | ["chunker-alloc", "R", b, mn, mx, w] => do
+    some s!"max={(chunkerAllocations (.rollsum ⟨← parseNat b, ← parseNat mn, ← parseNat mx, ← parseNat w⟩)).foldl max 0}"
+  | ["chunker-alloc", "B", b, mn, mx, w] => do
+    some s!"max={(chunkerAllocations (.buzhash ⟨← parseNat b, ← parseNat mn, ← parseNat mx, ← parseNat w⟩)).foldl max 0}"
+  | ["chunker-alloc", "F", n] => do
+    some s!"max={(chunkerAllocations (.fixed (← parseNat n))).foldl max 0}"
   | _ => none
 
 end Driver
